@@ -16,7 +16,7 @@ RULE = ("case = (width, depth, up to 4 sketches, event list of add/update/add_ng
         "sequences up to a length bound over a 3-key alphabet on two sketches; non-trivial = two distinct keys of the case share a "
         "counter in some row, or a saturating event occurred; distinct = by case digest (exhaustive: distinct reached states are "
         "counted separately)")
-ASSUMPTIONS = ["widths <= 64, depths <= 8, <= 4 sketches, <= 60 events per history", "tightness of the upper bound is not checked, only the bound"]
+ASSUMPTIONS = ["random histories: widths <= 64, depths <= 8, <= 4 sketches, <= 60 events; realistic cases: widths up to 2500 and one 70001 x 3 and one 5 x 300 table", "tightness of the upper bound is not checked, only the bound"]
 LEVEL_TEXT = ("Both bounds of the statement are evaluated for every key of the universe (added keys plus never-added neighbours) after "
               "every single event of random histories, and on every node of an exhaustive small-scope enumeration; a key with a private "
               "cell must therefore be exact. Which counter a key owns is observed on an empty probe sketch, not computed.")
@@ -309,6 +309,10 @@ def gen_cases(ctx):
            "events": [[0, ["add", hx(b"ab"), 2]], [0, ["ulist_rep", [hx(k) for k in fam], pick(rng, [65536, 70000, 131072 + 5])]], [0, ["add", hx(b"q"), 1]]]}
     for w in ([64] if ctx.quick else [pick(rng, [25, 64, 100, 500, 2500])]):
         yield {"type": "zipf", "width": w, "depth": 8, "n": 3, "vocab": 1000, "stream": 8000 if ctx.quick else 25000, "seed": int(rng.integers(0, 2**31))}
+    if ctx.quick or ctx.shard == 5:
+        # shapes beyond what fits an 8- or 16-bit index: more than 65535 columns, more than 255 rows
+        yield {"type": "zipf", "width": 70001, "depth": 3, "n": 2, "vocab": 1000, "stream": 6000, "seed": int(rng.integers(0, 2**31))}
+        yield {"type": "zipf", "width": 5, "depth": 300, "n": 2, "vocab": 300, "stream": 3000, "seed": int(rng.integers(0, 2**31))}
     if ctx.quick or ctx.shard < 4:
         ex = list(gen_exhaustive(rng, ctx))
         if ctx.thorough:
